@@ -25,7 +25,9 @@ the properties is stated without either. A sixth is a mistaken call — one scal
 raises, the other arguments, gv, the module-level variables of opticomlib and the ambient state must be as before (monitor
 exception.safety, also evaluated after every documented rejection exercised through Ctx.raises). And after every call through
 the layer the arrays of the result must not share memory with an argument buffer or with gv.t / gv.w, nor may the result be one of
-the argument objects (monitor fresh.result).
+the argument objects (monitor fresh.result). A seventh twin hands over the same values in another memory layout (Fortran order
+for 2-D arrays, strided views for 1-D ones, also inside signal objects; monitor forms.layout), and the identical-second-call twin runs on differently
+*poisoned* free memory (core.poison_small_blocks), so a result that reads memory it never wrote differs from its twin.
 The canonical call is always the workload's own call, through the property's monitors; the twin goes through them too
 (all-keyword twins go to the undecorated function, because the monitors' wrappers call it positionally).
 """
@@ -191,6 +193,36 @@ def _fresh(ctx, qual, r, a, k):
         ctx.check("fresh.result", not bad and not same, f"{qual}: " + ("the call returned one of its argument objects" if same else "an array of the result shares memory with an argument buffer (or with gv.t / gv.w)"))
 
 
+def _relayout(v, depth=0):
+    """the same values in another memory layout: Fortran order for 2-D arrays, a strided view for 1-D ones (what x[::2], a
+    transposed capture or a column of a table are); signal-like objects get relaid copies of their arrays. Returns (value, changed)."""
+    import copy
+    if isinstance(v, np.ndarray) and v.size > 1:
+        if v.ndim == 2 and min(v.shape) > 1:
+            return np.asfortranarray(v), True
+        if v.ndim == 1:
+            base = np.empty(2 * v.size, dtype=v.dtype)
+            base[::2] = v
+            base[1::2] = v[::-1]
+            return base[::2], True
+        return v, False
+    if hasattr(v, "signal") and hasattr(v, "noise") and isinstance(getattr(v, "signal", None), np.ndarray):
+        w = copy.copy(v)
+        s2, c1 = _relayout(v.signal, depth + 1)
+        n2, c2 = (_relayout(v.noise, depth + 1) if isinstance(v.noise, np.ndarray) else (v.noise, False))
+        if c1 or c2:
+            w.signal, w.noise = s2, n2
+            return w, True
+        return v, False
+    if hasattr(v, "data") and type(v).__name__ == "binary_sequence" and isinstance(getattr(v, "data", None), np.ndarray):
+        d2, c = _relayout(v.data, depth + 1)
+        if c:
+            w = copy.copy(v)
+            w.data = d2
+            return w, True
+    return v, False
+
+
 def _ambient(ctx, qual, before):
     """every call made by a workload: the function must leave the process-global ambient state as it found it"""
     d = core.ambient_diff(before, core.ambient_snapshot(full="environ" in before))
@@ -259,8 +291,10 @@ def make_layer(ctx, qual, period=PERIOD):
                     flatkw[name] = v
             allkw = ("*", "positional->keyword", ("allkw",)) if kw_ok and (real_varkw or set(flatkw) <= real_names) and len(a) > 0 else None
             repeat = ("*", "first call->identical second call", ("repeat",))
-            u = int(rng.integers(7))
-            if u == 6:
+            u = int(rng.integers(8))
+            if u == 7:
+                pname, lab, spec = ("*", "contiguous arrays->Fortran-ordered / strided arrays holding the same values", ("layout",))
+            elif u == 6:
                 names = [n for n, v in bound.arguments.items() if sig.parameters[n].kind not in (inspect.Parameter.VAR_KEYWORD, inspect.Parameter.VAR_POSITIONAL)
                          and (isinstance(v, (int, float, str, np.integer, np.floating)) or v is None) and not isinstance(v, (bool, np.bool_))]
                 if names:
@@ -284,16 +318,36 @@ def make_layer(ctx, qual, period=PERIOD):
             key = f"{qual}.{pname}:{lab}"
             try:
                 np.random.set_state(st0)
+                if spec[0] == "repeat":
+                    core.poison_small_blocks(int(rng.integers(4)))       # the identical second call runs on differently poisoned free blocks: a read of uninitialised memory differs
                 core._twin[0] += 1
                 try:
                     if spec[0] == "allkw":
-                        with core.monitor_scope(), core.quiet():
+                        with core.monitor_scope(convert=False), core.quiet():
                             r2 = real(**flatkw)
                     elif spec[0] == "repeat":
                         _depth[0] += 1
                         try:
                             with core.quiet():
                                 r2 = orig(*a, **k)
+                        finally:
+                            _depth[0] -= 1
+                    elif spec[0] == "layout":
+                        b2 = sig.bind(*a, **k)
+                        changed = False
+                        for name in list(b2.arguments):
+                            if sig.parameters[name].kind in (inspect.Parameter.VAR_KEYWORD, inspect.Parameter.VAR_POSITIONAL):
+                                continue
+                            nv, c = _relayout(b2.arguments[name])
+                            if c:
+                                b2.arguments[name] = nv
+                                changed = True
+                        if not changed:
+                            return r
+                        _depth[0] += 1
+                        try:
+                            with core.quiet():
+                                r2 = orig(*b2.args, **b2.kwargs)
                         finally:
                             _depth[0] -= 1
                     elif spec[0] == "misuse":
@@ -307,7 +361,7 @@ def make_layer(ctx, qual, period=PERIOD):
                         raised = None
                         _depth[0] += 1
                         try:
-                            with core.quiet(), core.monitor_scope():
+                            with core.quiet(), core.monitor_scope(convert=False):
                                 real(*b2.args, **b2.kwargs)
                         except core.Watchdog:
                             raise
@@ -394,9 +448,9 @@ def make_layer(ctx, qual, period=PERIOD):
                     raise
                 except (TypeError, ValueError, AttributeError, IndexError, OverflowError, Warning) as e:
                     outcome = f"raises:{type(e).__name__}"
-                    if spec[0] in ("repeat", "ambient", "gvN"):
+                    if spec[0] in ("repeat", "ambient", "gvN", "layout"):
                         with core.monitor_scope():
-                            ctx.check({"repeat": "forms.repeat", "ambient": "forms.ambient", "gvN": "forms.gvN"}[spec[0]], False, f"{qual}: the identical call repeated ({lab}; same objects, same numpy RNG state) raises {type(e).__name__}: {str(e)[:160]} although the first call returned", key=key)
+                            ctx.check({"repeat": "forms.repeat", "ambient": "forms.ambient", "gvN": "forms.gvN", "layout": "forms.layout"}[spec[0]], False, f"{qual}: the identical call repeated ({lab}; same objects, same numpy RNG state) raises {type(e).__name__}: {str(e)[:160]} although the first call returned", key=key)
                         return r
                     if "RV_FORMS_RECORD" in os.environ:
                         _record.setdefault(key, {}).setdefault(outcome, 0)
@@ -417,6 +471,10 @@ def make_layer(ctx, qual, period=PERIOD):
                         _record.setdefault(key, {}).setdefault("ok", 0)
                         _record[key]["ok"] += 1
                     ok, why = same(r2, r)
+                    if spec[0] == "layout":
+                        ctx.check("forms.layout", ok, f"{qual}: result changes when array arguments hold the same values in another memory layout (Fortran order / strided view): {why}", key=key)
+                        ctx.bin("forms.key", key)
+                        return r
                     if spec[0] == "gvN":
                         ctx.check("forms.gvN", ok, f"{qual}: result depends on the slot count gv.N (which only sizes the convenience axes gv.t / gv.w / gv.dw) or on a user-defined gv attribute named like one of its parameters: {why}", key=key)
                         ctx.bin("forms.key", key)
